@@ -1362,11 +1362,34 @@ func call(n *node) {
 	}
 
 	if n.anc.kind == deferStmt {
-		// Store function call in frame for deferred execution.
+		// Store function call in frame for deferred execution. The function value and the
+		// receiver of a method call are evaluated when the defer statement executes, as
+		// the arguments are.
 		value = genFunctionWrapper(c0)
+		var recv func(*frame) reflect.Value
+		var ptrRecv bool
+		if m, ok := c0.val.(*node); ok && c0.recv != nil && c0.recv.node != nil && m.kind == funcDecl {
+			recv = genValueRecv(c0)
+			ptrRecv = hasPtrRecv(m)
+		}
 		n.exec = func(f *frame) bltn {
 			val := make([]reflect.Value, len(values)+1)
-			val[0] = value(f)
+			if recv != nil {
+				r := recv(f)
+				if !ptrRecv {
+					for r.Kind() == reflect.Ptr {
+						r = r.Elem()
+					}
+				}
+				if !ptrRecv || r.Kind() == reflect.Ptr {
+					r = fixArg(r)
+				}
+				nod := *c0
+				nod.recv = &receiver{val: r}
+				val[0] = genFunctionWrapper(&nod)(f)
+			} else {
+				val[0] = fixArg(value(f))
+			}
 			for i, v := range values {
 				val[i+1] = fixArg(v(f))
 			}
